@@ -1,2 +1,3 @@
 pub mod corpus;
 pub mod mutate;
+pub mod expr;
